@@ -4,6 +4,7 @@ the specification to /repo's current working tree, and records mismatches."""
 import datetime
 import json
 import os
+import re
 import shutil
 
 import vlib
@@ -193,6 +194,12 @@ def expect_ok(exp, r):
         return r == [1, exp[1]]
     if k == "nopanic":
         return not (isinstance(r, list) and len(r) == 2 and r[0] == 2)
+    if k == "ordeq":      # same-type ordering <<cmp, ==, equal hashes, operators>>: hashes are only judged for equal values
+        e = exp[1]
+        if r == e:
+            return True
+        return (isinstance(r, list) and len(r) == 2 and r[0] == 0 and isinstance(r[1], list) and len(r[1]) == 4
+                and e[1][1] == 0 and r[1][:2] == e[1][:2] and r[1][3] == e[1][3])
     raise ToolError("bad expectation %r" % (exp,))
 
 
@@ -560,6 +567,21 @@ def scale_of(v):
     return 1 if v.tier == "quick" else 4
 
 
+def multi_plan(v, ops, scale, cap, heavy_cap=1200, rounds=6):
+    """pools.plan_for over the check's seed (quick) or over `rounds` derived seeds (thorough: new random pool members
+    and new random operand tuples each round; the boundary values are in every round and de-duplicated)."""
+    import pools
+    seen, plan = set(), []
+    for k in range(1 if v.tier == "quick" else rounds):
+        P = pools.Pools(v.seed + 7919 * k, scale)
+        for op, a in pools.plan_for(ops, P, cap=cap, heavy_cap=heavy_cap):
+            key = op + repr(a)
+            if key not in seen:
+                seen.add(key)
+                plan.append((op, a))
+    return plan
+
+
 LINEAR_OPS = ["D.add_days", "D.sub_days", "D.sub_date", "D.add_interval_dt", "D.sub_interval_dt", "D.add_time", "D.sub_time",
               "D.sub_timestamp", "D.and_time", "D.to_ts",
               "TS.add_interval_dt", "TS.sub_interval_dt", "TS.add_time", "TS.sub_time", "TS.add_days", "TS.sub_days",
@@ -637,8 +659,7 @@ def c08(v):
                      "result is in range; fractional days = nearest microsecond via big integers).")
     speclaws(v, ["LinearLaws", "IntervalLaws"])
     apalache_laws(v)
-    P = pools.Pools(v.seed, scale_of(v) * 2)
-    plan = pools.plan_for(LINEAR_OPS, P, cap=4000 * scale_of(v))
+    plan = multi_plan(v, LINEAR_OPS, scale_of(v) * 2, 4000 * scale_of(v))
     eventtrace(v, "linear", plan, {"result", "range", "panic"})
 
 
@@ -771,9 +792,8 @@ def c14(v):
                      "product/quotient then truncated toward zero, exact when the real value is an integer below 2^53, error kind by "
                      "class (NaN / infinite / divide-by-zero / out of range).")
     speclaws(v, ["BigLaws"])
-    P = pools.Pools(v.seed, scale_of(v))
-    plan = pools.plan_for(["YM.mul_f64", "YM.div_f64", "DT.mul_f64", "DT.div_f64", "T.mul_f64", "T.div_f64"], P,
-                          cap=100000, heavy_cap=2600 * scale_of(v))
+    plan = multi_plan(v, ["YM.mul_f64", "YM.div_f64", "DT.mul_f64", "DT.div_f64", "T.mul_f64", "T.div_f64"], scale_of(v),
+                      100000, heavy_cap=2600 * scale_of(v), rounds=5)
     eventtrace(v, "scale", plan, {"result", "range", "panic"}, shard=1200)
 
 
@@ -1367,8 +1387,9 @@ def c15(v):
     v.cov["rule"] = ("(impl->spec, EventTrace.tla) every type x window days / seconds / boundary+random pools: JSON text must be the "
                      "fixed layout rendered by Render.tla, bincode payload the raw count and both decode back to the value; raw "
                      "integers at the range limits +-1, integer extremes, sub-second Oracle payloads decoded from bincode must be "
-                     "rejected unless in range. (spec->impl, SpellGen.tla) lenient spellings of the fixed layouts decode to the "
-                     "denoted value and every perturbed / malformed string is rejected, through serde_json.")
+                     "rejected unless in range. (spec->impl, SpellGen.tla) the canonical spelling of the fixed layouts decodes to the "
+                     "value; every lenient, perturbed or malformed string (\"any other payload\") gives an error or a value in "
+                     "range, through serde_json.")
     P = pools.Pools(v.seed, scale_of(v) * 2)
     plan = []
     days = []
@@ -1397,12 +1418,16 @@ def c15(v):
         for x in pool[:14]:
             cases.append((ty, list(FIXED_PICS[ty]), x, CLOCKS[0]))
     gens = spellgen(v, "fixed", cases, chunks=8)
-    plan = []
+    plan, other = [], []
     for g in gens:
         _, cs, var, ty, pic, text, clk, exp, loss = g
         if "".join(pic) != FIXED_PICS[ty]:
             continue          # perturbations that change the picture do not apply to a fixed layout
-        plan.append((ty + ".unjson", [text], ("eq", exp) if exp[0] == 0 else ("err",)))
+        if var == 1:         # the canonical spelling = what the serializer writes: must decode to the value
+            plan.append((ty + ".unjson", [text], ("eq", exp) if exp[0] == 0 else ("err",)))
+        else:                # "any other payload": an error or a value in range (judged by ValueInRangeX in EventTrace.tla)
+            other.append((ty + ".unjson", [text]))
+    eventtrace(v, "unjson_other", other, {"range"}, shard=20000)
     bad = replay_plan(v, "unjson", plan)
     v.cov["distinct_nontrivial"] += len({(p[0], repr(p[1])) for p in plan})
     v.cov["traces_validated_against_impl"] += 1
@@ -1439,13 +1464,23 @@ def c03(v):
     fixed = list(FIXED_PICS.items()) + [("D", "Dy Mon DD YYYY DDD D"), ("T", "HH12:MI:SS.FF AM"), ("TS", "DAY MONTH DD YYYY HH:MI P.M."),
                                          ("OD", "YY-MON-DD HH24"), ("YM", "Y MM"), ("DT", "DD HH24")]
     vals = {"D": 13608, "T": [47289, 123456], "TS": PROBE_TS, "OD": [13608, 47289, 0], "YM": -17, "DT": [-3, 3600, 5]}
+    # every token spelling (upper, lower, capitalised) alone and after a year, formatted with every pool value of every type:
+    # a token that does not apply to a type, or a value at a field's extreme (month 0 of an interval, year 1 / 9999,
+    # midnight, the last microsecond) must give text or an error, never a panic
+    poolvals = {ty: pool for ty, pool in tys}
+    for tok in TOKEN_SPELLINGS:
+        for sp in sorted({tok, tok.lower(), tok.capitalize()}):
+            for ty, pool in tys:
+                for x in pool[:: max(1, len(pool) // 40)] + pool[:12]:
+                    plan.append((ty + ".format", [x, list(sp)], ("nopanic",)))
+                plan.append((ty + ".format", [pool[0], list("YYYY " + sp + " " + sp)], ("nopanic",)))
     for i, g in enumerate(gens):
         s_ = g[0]
         ty, pic = fixed[i % len(fixed)]
         plan.append(("F.try_new", [s_], ("nopanic",)))
         plan.append((ty + ".parse", [s_, list(pic)], ("nopanic",)))
         plan.append((ty + ".parse", [list("2007-04-05 13:08:09.123456"[: 3 + i % 24]), s_], ("nopanic",)))
-        plan.append((ty + ".format", [vals[ty], s_], ("nopanic",)))
+        plan.append((ty + ".format", [poolvals[ty][(i // len(fixed)) % len(poolvals[ty])] if i % 2 else vals[ty], s_], ("nopanic",)))
     # long random symbol sequences
     sym = ALPHABET + ["@", "$", "Z", "x", "5", "7", "+", "'", '"', "\t"]
     for i in range(1500 * scale_of(v)):
@@ -1464,7 +1499,7 @@ def c03(v):
         plan.append((ty + ".parse", [s_, list(pic)], ("nopanic",)))
         plan.append((ty + ".parse", [list("2007-04-05"), s_], ("nopanic",)))
         plan.append((ty + ".parse", [s_, s_], ("nopanic",)))
-        plan.append((ty + ".format", [vals[ty], s_], ("nopanic",)))
+        plan.append((ty + ".format", [poolvals[ty][(i // len(fixed)) % len(poolvals[ty])] if i % 2 else vals[ty], s_], ("nopanic",)))
     # a valid beginning followed by a long tail with multi-byte characters at every byte offset
     goodtexts = {"D": "2007-04-05", "T": "13:08:09.123456", "TS": "2007-04-05 13:08:09.123456", "OD": "2007-04-05 13:08:09",
                  "YM": "+0001-05", "DT": "-02 22:59:59.999995"}
@@ -1494,6 +1529,192 @@ def c03(v):
                                         "a": ["".join(x) if isinstance(x, list) and x and isinstance(x[0], str) else x for x in args]},
                        {"observed": r})
     v.sample({"hostile_inputs": [[p[0], "".join(p[1][0])[:40] if isinstance(p[1][0], list) else p[1][0]] for p in plan[5000:5003]]})
+
+
+# --------------------------------------------------------------------------
+# (C') the free-running register machine (Machine.tla): spec -> impl
+# --------------------------------------------------------------------------
+MACHINE_LITS = (("LitD", "D"), ("LitT", "T"), ("LitTS", "TS"), ("LitYM", "YM"), ("LitDT", "DT"), ("LitOD", "OD"))
+
+
+def machine_ops():
+    """The calls Machine.tla models (parsed from its MachineOps definition: one source of truth)."""
+    txt = open(os.path.join(vlib.SPEC, "Machine.tla")).read()
+    body = txt[txt.index("MachineOps =="):]
+    body = body[:body.index("}")]
+    return re.findall(r'"([A-Z]+\.[a-z_0-9]+)"', body)
+
+
+def machine(v, tag, want_op, nconf=4, bfs_budget=700000, sim_num=2000, sim_depth=25, nlit=2, only_range=False, judged=None):
+    """Runs Machine.tla (a) breadth-first to the depth the budget allows from `nconf` initial register files
+    (invariants RegsInRange, Refines, StepLaws, TruncIdem on every state) and (b) in simulation mode with one
+    random call per step; every transition TLC printed is replayed on the crate and its result compared with
+    the result the specification computed."""
+    import pools
+    import random
+    ops = [o for o in machine_ops() if want_op(o)]
+    if not ops:
+        raise ToolError("machine(%s): no operations selected" % tag)
+    wd = vlib.workdir("%s_machine_%s" % (v.prop, tag))
+    rnd = random.Random(v.seed * 31 + 5)
+    P = pools.Pools(v.seed * 31 + 5, 1)
+    sig_arity = 2
+    confs = []
+    for k in range(nconf):
+        core = lambda pool, n=10: pool[:n]
+        pick = (lambda pool: rnd.choice(core(pool))) if k % 2 == 0 else (lambda pool: rnd.choice(pool))
+        init = [pick(P.dates), pick(P.times), pick(P.ts), pick(P.ym), pick(P.dt), pick(P.od)]
+        lits = {name: [pick(P.pool(ty)) for _ in range(nlit)] for name, ty in MACHINE_LITS}
+        lits["LitI"] = [rnd.choice([0, 1, -1, 31, 365, -366, 146097, 3652058, -3652058, 3652059, 719162, -4000000]) for _ in range(nlit + 1)]
+        big = {name: uniq_list(lits[name] + [rnd.choice(P.pool(ty)) for _ in range(10)]) for name, ty in MACHINE_LITS}
+        big["LitI"] = uniq_list(lits["LitI"] + [rnd.randint(-40000, 40000) for _ in range(6)])
+        confs.append((init, lits, sorted(rnd.sample(range(1, 13), 4)), big))
+    # transitions per state ~ sum over ops of prod(|operand set|); pick the depth the budget allows
+    per_state = len(ops) * (nlit + 1) ** sig_arity
+    depth = 1
+    while per_state ** (depth + 1) <= bfs_budget and depth < 4:
+        depth += 1
+    log("[%s] machine %s: %d calls, %d configurations, breadth-first depth %d, simulation %d x %d steps"
+        % (v.prop, tag, len(ops), nconf, depth, sim_num, sim_depth))
+
+    def write_model(k, init, lits, units, maxdepth, keep, spec, emit, litscale=1):
+        defs = {"MCInit": tla_val(init), "MCOps": "{" + ",".join('"%s"' % o for o in ops) + "}",
+                "MCLitU": "{" + ",".join(str(u) for u in units) + "}"}
+        for name, vals in lits.items():
+            defs["MC" + name] = "{" + ",".join(tla_val(x) for x in vals) + "}"
+        mod = vlib.mc_module(wd, "MCMachine_%s" % k, "Machine", defs)
+        cfg = os.path.join(wd, "MC_%s.cfg" % k)
+        with open(cfg, "w") as fh:
+            fh.write("SPECIFICATION %s\nCONSTANTS InitRegs <- MCInit\n OpNames <- MCOps\n LitU <- MCLitU\n" % spec)
+            for name in lits:
+                fh.write(" %s <- MC%s\n" % (name, name))
+            fh.write(" MaxDepth = %d\n KeepHist = %s\nINVARIANTS RegsInRange Refines StepLaws TruncIdem %s\nCHECK_DEADLOCK FALSE\n"
+                     % (maxdepth, "TRUE" if keep else "FALSE", emit))
+        return mod, cfg
+
+    def bfs(k):
+        init, lits, units4, _ = confs[k]
+        units = units4 if depth > 1 else list(range(1, 13))
+        mod, cfg = write_model("b%d" % k, init, lits, units, depth, False, "Spec", "EmitStep")
+        return vlib.tlc(mod, cfg, workers=max(2, vlib.NCPU // nconf), xmx="6g", timeout=3000, cwd=wd, metadir=os.path.join(wd, "mb%d" % k))
+
+    def sim(k):
+        init, _, _, big = confs[k]
+        mod, cfg = write_model("s%d" % k, init, big, list(range(1, 13)), sim_depth, True, "SpecRnd", "EmitHist")
+        return vlib.tlc(mod, cfg, workers=1, xmx="3g", timeout=3000, cwd=wd, metadir=os.path.join(wd, "ms%d" % k),
+                        extra=["-simulate", "num=%d" % (sim_num // nconf), "-depth", str(sim_depth + 2), "-seed", str(v.seed * 100 + k)])
+
+    trans = {}
+    nbeh = 0
+    for mode, fn in (("bfs", bfs), ("sim", sim)):
+        for k, res in enumerate(vlib.parallel(fn, list(range(nconf)), jobs=nconf if mode == "sim" else 2)):
+            if res.errors:
+                m_ = res.out.find("Error:")
+                raise ToolError("Machine(%s,%s,%d): invariant violated in the specification / error:\n%s" % (tag, mode, k, res.out[m_:m_ + 3000]))
+            v.add_tlc(res, "tlc -config MC.cfg MCMachine.tla (Machine, %s, %d calls%s)"
+                      % (mode, len(ops), (", depth %d" % depth) if mode == "bfs" else (", -simulate num=%d -depth %d" % (sim_num // nconf, sim_depth + 2))))
+            gens = res.tagged("GEN")
+            if not gens:
+                raise ToolError("Machine(%s,%s,%d): TLC printed no transitions" % (tag, mode, k))
+            if mode == "bfs":
+                for g in gens:
+                    trans.setdefault(json.dumps([g[1], g[2]]), (g[1], g[2], g[3]))
+            else:
+                for g in gens:
+                    nbeh += 1
+                    for st in g[1]:
+                        trans.setdefault(json.dumps([st[0], st[1]]), (st[0], st[1], st[2]))
+    never = sorted(set(ops) - {t[0] for t in trans.values()})
+    if never:       # vacuity guard: every modelled call must have been taken at least once
+        raise ToolError("Machine(%s): calls never taken by TLC: %s" % (tag, never))
+    plan = []
+    for op, a, r in trans.values():
+        if r[0] == 0:
+            plan.append((op, a, ("ordeq", r) if op.endswith(".ord") else ("eq", r)))
+        else:
+            plan.append((op, a, ("err",)))
+    for profile in ("release", "dev"):
+        bad = replay_plan(v, "machine_%s_%s" % (tag, profile), plan, profile=profile)
+        v.cov["traces_validated_against_impl"] += nbeh + 1
+        for op, a, r, exp in bad:
+            if only_range and not (exp[0] == "err" and isinstance(r, list) and r and r[0] == 0):
+                continue
+            if judged is not None and not judged(op):
+                continue                       # a mover: judged by the property it belongs to
+            key = {"op": op, "aspect": "range" if only_range else "result", "profile": profile, "a": a}
+            enrich_key(key)
+            v.mismatch("Machine:" + op, key,
+                       {"observed": r, "expected": list(exp[1]) if len(exp) > 1 else "error"})
+    v.cov["distinct_nontrivial"] += len(plan)
+    v.sample({"machine_transitions": [[p[0], p[1], p[2][1] if len(p[2]) > 1 else "err"] for p in plan[:3]]})
+    shutil.rmtree(wd, ignore_errors=True)
+    return len(plan), nbeh
+
+
+def uniq_list(xs):
+    seen, out = set(), []
+    for x in xs:
+        kx = json.dumps(x)
+        if kx not in seen:
+            seen.add(kx)
+            out.append(x)
+    return out
+
+
+
+def _name(o):
+    return o.split(".", 1)[1]
+
+
+MACHINE_SUBSETS = {
+    # property -> (calls JUDGED for the property, further calls only used to move the registers, aspect)
+    # A mismatch on a mover is not this property's business (it belongs to the property that judges that call).
+    "C02": (lambda o: True, (), "range"),
+    "C07": (lambda o: o in ("TS.new", "TS.extract", "D.and_time", "T.from_ts", "T.extract", "TS.ord", "T.ord"),
+            ("TS.add_interval_dt", "TS.sub_time", "D.sub_time", "D.add_days", "T.add_interval_dt"), "result"),
+    "C08": (lambda o: (_name(o) in ("add_days", "sub_days", "sub_date", "add_interval_dt", "sub_interval_dt", "add_time", "sub_time",
+                                    "sub_timestamp") and o.split(".")[0] in ("D", "TS", "DT"))
+            or o in ("YM.add_interval_ym", "YM.sub_interval_ym"), ("DT.neg", "YM.neg", "T.add_interval_dt"), "result"),
+    "C09": (lambda o: _name(o) in ("add_interval_ym", "sub_interval_ym", "last_day_of_month") and o.split(".")[0] in ("D", "TS"),
+            ("YM.neg", "YM.add_interval_ym", "D.add_days", "TS.add_interval_dt"), "result"),
+    "C10": (lambda o: _name(o) == "trunc", ("D.add_days", "TS.add_interval_dt", "OD.add_interval_dt"), "result"),
+    "C11": (lambda o: _name(o) == "round", ("D.add_days", "TS.add_interval_dt", "OD.add_interval_dt"), "result"),
+    "C12": (lambda o: o in ("T.add_interval_dt", "T.sub_interval_dt", "T.sub_time", "T.from_dt", "T.ord_dt", "DT.ord_t"),
+            ("DT.neg", "DT.add_interval_dt", "DT.from_time", "T.from_ts", "DT.sub_interval_dt"), "result"),
+    "C13": (lambda o: o in ("YM.neg", "YM.extract", "YM.months", "YM.ord", "DT.neg", "DT.extract", "DT.usecs", "DT.ord"),
+            ("YM.add_interval_ym", "YM.sub_interval_ym", "DT.add_interval_dt", "DT.sub_interval_dt", "DT.from_time"), "result"),
+    "C16": (lambda o: o in ("OD.new", "OD.from_ts", "OD.add_interval_dt", "OD.sub_interval_dt", "OD.add_interval_ym", "OD.sub_interval_ym",
+                            "OD.to_ts", "OD.extract", "OD.usecs", "OD.last_day_of_month"),
+            ("TS.add_interval_dt", "TS.sub_interval_dt", "DT.neg", "YM.neg", "T.add_interval_dt"), "result"),
+    "C17": (lambda o: o in ("D.ord_ts", "D.ord_od", "TS.ord_d", "TS.ord_od", "OD.ord_ts", "OD.ord_d", "D.to_ts", "OD.to_ts"),
+            ("OD.from_ts", "OD.new", "TS.new", "D.add_days", "TS.add_interval_dt", "OD.add_interval_dt", "T.add_interval_dt"), "result"),
+}
+
+
+def _with_machine(prop_id):
+    inner = REGISTRY[prop_id]
+    judged, movers, aspect = MACHINE_SUBSETS[prop_id]
+
+    def wrapped(v):
+        if not os.environ.get("VERIF_ONLY_MACHINE"):     # (set only by bin/machine_matrix: what the machine detects on its own)
+            inner(v)
+        thorough = v.tier == "thorough"
+        before = len(v.violations)
+        n, nbeh = machine(v, "m", lambda o: judged(o) or o in movers, judged=judged, nconf=12 if thorough else 4, bfs_budget=3000000 if thorough else 700000,
+                          sim_num=24000 if thorough else 2000, sim_depth=40 if thorough else 25,
+                          only_range=(aspect == "range"))
+        v.cov["rule"] += (" (M) Machine.tla: the library as a free-running register machine restricted to this property's calls - TLC "
+                          "checks RegsInRange / Refines (Fun vs OpOK) / StepLaws / TruncIdem breadth-first and in simulation; all %d "
+                          "distinct transitions it printed (%d simulated behaviours) replayed on the crate in both profiles, the "
+                          "calls that belong to this property judged (the others only move the registers)%s."
+                          % (n, nbeh, "; for this property a mismatch counts when the crate returns a value where the exact result "
+                             "lies outside the range" if aspect == "range" else ""))
+    wrapped.__name__ = inner.__name__
+    REGISTRY[prop_id] = wrapped
+
+
+for _p in MACHINE_SUBSETS:
+    _with_machine(_p)
 
 
 def selftest():
